@@ -19,6 +19,10 @@ def conv(st):
 
 def run(c):
     thorough = c.tier == 'thorough'
+    # inside the sync loop: every snapshot the stepped real loop stores is decoded - content, names, and the
+    # transaction its metadata names (adjusted after an empty write transaction) against LSLoop's bucket
+    import loopx
+    loopx.run_suite(c, 'C06', with_window=False, exhaustive=False)
     for cfg, native in (('LSDump_native.cfg', True), ('LSDump_shadow.cfg', False)):
         r = vlib.tlc_must_pass('LSDump', cfg, workers=4, timeout=600)
         c.add_tlc(cfg, r)
